@@ -145,3 +145,6 @@ Proof.
   intros tau H. unfold gumbel_domain, gumbel_accepts in *. apply Z.ltb_ge in H.
   apply negb_false_iff. apply Z.leb_le. exact H.
 Qed.
+
+Lemma positive_finite_guard_decides : forall v, positive_finite_guard_accepts v = positive_finite_domain v.
+Proof. intros []; reflexivity. Qed.
